@@ -203,6 +203,9 @@ func (e *Env) replayOnce(bin, variant string, rf *replay.File, tape Tape, extraE
 	if variant == simrunAsmRaceBuild.Name {
 		extraEnv = append(append([]string(nil), extraEnv...), raceBuildEnv...)
 	}
+	if m := kernel.SystemEntropyFor(rf.World, rf.Idx-rf.Prefix); m != "" {
+		extraEnv = append(append([]string(nil), extraEnv...), "VERIF_SYSTEM_ENTROPY="+m)
+	}
 	j := &Job{Bin: bin, Variant: variant, World: rf.World, Prop: rf.Prop, From: rf.Idx, N: 1, Procs: procs, Extra: []string{"-replay", p}, Env: extraEnv, Timeout: 5 * time.Minute}
 	e.runJob(j)
 	if j.Err != nil {
